@@ -766,6 +766,10 @@ fn judge(c: &Case, out: &FarmOut, stats: &mut Stats) -> Verdict {
     let Some(b) = &out.build else { return Verdict::Infra("no build result".into()) };
     if !b.ok() {
         let text = format!("{}{}", b.stdout, b.stderr);
+        // cargo lost a file in the shared target directory (another process cleaned it): tool trouble, not a verdict
+        if !text.contains("error[E") && (text.contains("could not parse/generate dep info") || text.contains("failed to remove")) {
+            return Verdict::Infra(format!("cargo trouble in the worker target dir: {}", util::truncate(&text, 400)));
+        }
         // rustc error headers naming the derived machinery
         let heads: Vec<&str> = text.lines().filter(|l| l.starts_with("error")).collect();
         let words = ["from_json", "to_json", "Serialize", "Deserialize", "serde", "PartialOrd", "PartialEq", "`Ord`", "`Eq`", "`Hash`", "Hash` is not", "Clone"];
@@ -781,6 +785,9 @@ fn judge(c: &Case, out: &FarmOut, stats: &mut Stats) -> Verdict {
         };
     }
     let Some(r) = &out.run else { return Verdict::Infra("no run result".into()) };
+    if r.status.is_none() && r.signal.is_none() && r.stderr.starts_with("spawn failed") {
+        return Verdict::Infra(format!("binary vanished before it could be started: {}", r.stderr));
+    }
     if r.timed_out {
         return Verdict::Infra("program watchdog".into());
     }
